@@ -1510,7 +1510,7 @@ def rotate(obj, angle, **kwargs):
 
         # Then, rotate about the axis
         rot = math.radians(alpha)
-        new_ctrlpts = [[0.0 for _ in range(ncs.dimension)] for _ in range(len(ncs.ctrlpts))]
+        new_ctrlpts = [list(ncs.ctrlpts[i]) for i in range(len(ncs.ctrlpts))]  # the other coordinates stay
         for idx, pt in enumerate(ncs.ctrlpts):
             new_ctrlpts[idx][0] = pt[0]
             new_ctrlpts[idx][1] = (pt[1] * math.cos(rot)) - (pt[2] * math.sin(rot))
@@ -1529,7 +1529,7 @@ def rotate(obj, angle, **kwargs):
 
         # Then, rotate about the axis
         rot = math.radians(alpha)
-        new_ctrlpts = [[0.0 for _ in range(ncs.dimension)] for _ in range(len(ncs.ctrlpts))]
+        new_ctrlpts = [list(ncs.ctrlpts[i]) for i in range(len(ncs.ctrlpts))]  # the other coordinates stay
         for idx, pt in enumerate(ncs.ctrlpts):
             new_ctrlpts[idx][0] = (pt[0] * math.cos(rot)) - (pt[2] * math.sin(rot))
             new_ctrlpts[idx][1] = pt[1]
